@@ -52,7 +52,12 @@ func (ls *lockSched) hook(point string) {
 	<-p.resume
 }
 
+// lockScript: forced first steps of a case ("start:1", "sys:2", "release:1", "crash:1").
+var lockScript []string
+
 func (h *harness) lockCase(r *rng, name string, nproc, steps int) {
+	script := lockScript
+	lockScript = nil
 	dir, _ := os.MkdirTemp("", "lockcase")
 	defer os.RemoveAll(dir)
 	path := filepath.Join(dir, "lock")
@@ -102,7 +107,22 @@ func (h *harness) lockCase(r *rng, name string, nproc, steps int) {
 	for step := 0; step < steps; step++ {
 		p := procs[1+r.intn(nproc)]
 		act := ""
+		forced := ""
+		if step < len(script) {
+			var id int
+			parts := strings.SplitN(script[step], ":", 2)
+			fmt.Sscan(parts[1], &id)
+			p, forced = procs[id], parts[0]
+		}
 		switch {
+		case (forced == "crash" || (forced == "" && r.chance(12))) && strings.HasPrefix(p.status, "holding") && p.lock != nil:
+			// the process dies: the OS closes its descriptors (the flock goes away), the lock file stays
+			act = "crash"
+			if c, ok := p.lock.(interface{ Close() error }); ok {
+				_ = c.Close()
+			}
+			p.lock = nil
+			p.status = "idle"
 		case p.running:
 			act = "sys"
 			p.resume <- struct{}{}
@@ -125,7 +145,7 @@ func (h *harness) lockCase(r *rng, name string, nproc, steps int) {
 			})
 			settle(p, wait(p))
 		case strings.HasPrefix(p.status, "holding"):
-			if r.chance(60) {
+			if forced == "release" || (forced == "" && r.chance(60)) {
 				act = "release"
 				l := p.lock
 				spawn(p, func() string {
@@ -175,6 +195,12 @@ func (h *harness) lockCase(r *rng, name string, nproc, steps int) {
 
 func (h *harness) runLock(seed uint64, cases int) {
 	r := &rng{s: seed*0x9e3779b97f4a7c15 + 4242}
+	// directed schedules first: a session that starts and dies while another opener is inside its
+	// acquisition (F17), and the creator of the lock file overtaken before it locks it (known finding)
+	lockScript = []string{"start:1", "start:2", "sys:2", "sys:2", "sys:2", "crash:2", "sys:1", "sys:1"}
+	h.lockCase(r, fmt.Sprintf("lock-%d-overtaken-and-died", seed), 2, 10)
+	lockScript = []string{"start:1", "sys:1", "sys:1", "crash:1", "start:2", "sys:2", "sys:2", "sys:2"}
+	h.lockCase(r, fmt.Sprintf("lock-%d-orphan", seed), 2, 10)
 	for i := 0; i < cases; i++ {
 		h.lockCase(r, fmt.Sprintf("lock-%d-%d", seed, i), 2+r.intn(2), 8+r.intn(14))
 	}
